@@ -1,4 +1,6 @@
+pub mod rng;
 pub mod sm2;
 pub mod sm3;
 pub mod sm4;
+pub mod sm9;
 pub mod zuc;
